@@ -1,5 +1,6 @@
 """C02 -- scalar multiplication paths."""
 import roles
+import inline as INL
 import exp
 from exp import Agg, Int, Lin, TOP
 from facts import callee, op_place
@@ -30,19 +31,13 @@ def rule_window_ranges(fx, rep):
                 rep.fail('RANGE', '%s:%s:anchor' % (g, nm), 'not found')
                 continue
             rep.fn(p)
-            # the trait method forwards to one local helper: analyse that helper
-            cs = [callee(t) for _, t in b.calls()]
-            o = Origin(b)
-            r0 = strip(o.local(0))
-            if not (len(cs) == 1 and cs[0].get('res_local') and r0[0] == 'call' and r0[1] is cs[0] or (len(cs) == 1 and r0[0] == 'call')):
-                rep.fail('RANGE', '%s:%s' % (g, nm), 'does not simply forward to one helper', fx.fn(p)['span'], construct=p)
-                continue
-            helper = cs[0].get('res') or cs[0]['def']
-            rep.fn(helper)
+            # the trait method with whatever local helpers it forwards to inlined
             try:
-                I = exp.Interp(fx, 'none', max_paths=128)
-                res = I.run(helper, [TOP])
+                I = exp.Interp(fx, 'none', max_paths=128, inline=lambda q: INL.is_private_helper(fx, q))
+                I.fork_inlined = True
+                res = I.run(p, [TOP])
                 rep.sites(I.call_sites)
+                res = [x for x in res if not (isinstance(x[1], tuple) and x[1] and x[1][0] == 'diverges')]
                 vals = [ret.v if isinstance(ret, Int) else None for _, ret, _ in res]
             except (exp.NotDerivable, exp.Budget) as e:
                 rep.fail('RANGE', '%s:%s' % (g, nm), 'not derivable: %s' % e, fx.fn(p)['span'])
@@ -61,26 +56,9 @@ def rule_buffers(fx, rep):
             rep.fail('TS', 'wnaf-%s:anchor' % role, 'the Wnaf context methods call no %s-building helper' % role)
             continue
         rep.fn(fn)
-        r = Resolver(b)
-        uses = []
-        for bi, t in b.calls():
-            for k, a in enumerate(t['args']):
-                ref = r.operand_referent(a)
-                p = op_place(a)
-                hit = (ref is not None and ref[0] == 'place' and ref[1]['l'] == 1) or (p is not None and p['l'] == 1)
-                if hit:
-                    uses.append((bi, t, k))
-        clears = [(bi, t) for bi, t, k in uses if (callee(t) or {}).get('name') in ('truncate', 'clear') and k == 0
-                  and ((callee(t)['name'] == 'clear') or (r.operand_int(t['args'][1]) == 0))]
-        ok = len(clears) >= 1 and all(b.dominates(clears[0][0], bi) for bi, t, k in uses)
-        rets = [rb for rb in b.return_blocks() if rb in b.reachable()]
-        skip = [rb for rb in rets if not (clears and b.dominates(clears[0][0], rb))]
-        why = 'the buffer parameter is used before / without being emptied: a reused wNAF context keeps stale entries'
-        if ok and skip:
-            ok = False
-            why = 'a return (%s) is reachable without emptying the buffer: on that path a reused wNAF context keeps the previous call\'s entries' % ', '.join(
-                str(b.blocks[rb]['term'].get('span')) for rb in skip)
-        rep.check(ok, 'TS', '%s:buffer-cleared-first' % fn, 'the output buffer is emptied before any other use and on every path to a return (reuse == fresh context)',
+        ok, why = buffer_emptied(fx, b)
+        rep.check(ok, 'TS', '%s:buffer-cleared-first' % fn, 'forward must-dataflow on the output buffer: it has been emptied (clear / truncate(0) / drain(..) / overwritten by a fresh vector) '
+                  'on every path to a return and before any of its elements is read (reuse == fresh context)',
                   why, fx.fn(fn)['span'], construct=fn)
     # wnaf_form: the scalar is updated only through full-width repr operations
     b = fx.body(W.get('form'))
@@ -105,6 +83,86 @@ def rule_buffers(fx, rep):
             bad.append('direct store into the scalar at %s' % (w[3]['span'] if w[0] == 'assign' else '?'))
         rep.check(not bad, 'WIRE', 'wnaf_form:full-width-updates', 'the scalar is only updated by sub_noborrow / add_nocarry / div2 (all limbs, carries propagated)',
                   'the multi-limb scalar is modified through %s: a carry/borrow out of one limb is lost' % '; '.join(bad), fx.fn(W['form'])['span'], construct=W['form'])
+
+
+NEUTRAL_BUF = {'len', 'capacity', 'is_empty', 'reserve', 'reserve_exact', 'shrink_to_fit', 'shrink_to', 'try_reserve'}
+WRITE_BUF = {'push', 'extend', 'extend_from_slice', 'insert', 'append', 'resize', 'resize_with', 'push_within_capacity'}
+
+
+def buffer_emptied(fx, body0):
+    """Typestate of the caller-provided output buffer (parameter 1), decided as a forward must-analysis over the CFG of the
+    body with its private helpers inlined: state 'emptied' is established by clear / truncate(0) / drain(..) / mem::take /
+    a whole overwrite, kept by writes and neutral queries, and required at every return and at every other use (which may
+    read stale elements)."""
+    import inline as INL
+    b = INL.inlined(fx, body0.path, lambda q: INL.is_private_helper(fx, q)) or body0
+    r = Resolver(b)
+
+    def refers(a):
+        ref = r.operand_referent(a)
+        p = op_place(a)
+        return (ref is not None and ref[0] == 'place' and ref[1]['l'] == 1) or (p is not None and p['l'] == 1)
+    ev = {}          # block -> list of ('clean' | 'keep' | 'read', span)
+    for bi in sorted(b.reachable()):
+        blk = b.blocks[bi]
+        lst = []
+        for st in blk['stmts']:
+            if st['k'] == 'assign' and st['place']['l'] == 1 and st['place']['p'] == [['deref']]:
+                lst.append(('clean', st['span']))          # *buf = <new value>
+        t = blk['term']
+        if t['k'] == 'call':
+            c = callee(t) or {}
+            nm = c.get('name')
+            d = c.get('res') or c.get('def') or ''
+            for k, a in enumerate(t['args']):
+                if not refers(a):
+                    continue
+                isvec = 'std::vec::Vec' in d
+                if isvec and k == 0 and (nm == 'clear' or (nm == 'truncate' and r.operand_int(t['args'][1]) == 0)):
+                    lst.append(('clean', t['span']))
+                elif isvec and k == 0 and nm == 'drain' and b.local_ty(op_place(t['args'][1])['l'] if op_place(t['args'][1]) else 0).endswith('RangeFull'):
+                    lst.append(('clean', t['span']))
+                elif d.startswith('std::mem::take') or (d.startswith('std::mem::replace') and k == 0):
+                    lst.append(('clean', t['span']))
+                elif isvec and k == 0 and nm in NEUTRAL_BUF | WRITE_BUF:
+                    lst.append(('keep', t['span']))
+                else:
+                    lst.append(('read', t['span'], d))
+        ev[bi] = lst
+    # forward must-analysis
+    reach = sorted(b.reachable())
+    IN = {bi: True for bi in reach}
+    IN[0] = False
+    OUT = {}
+    changed = True
+    while changed:
+        changed = False
+        for bi in reach:
+            if bi != 0:
+                preds = [p_ for p_ in b.pred[bi] if p_ in OUT]
+                v = all(OUT[p_] for p_ in preds) if preds else True
+            else:
+                v = False
+            st = v
+            for e in ev[bi]:
+                if e[0] == 'clean':
+                    st = True
+            if IN.get(bi) != v or OUT.get(bi) != st:
+                IN[bi], OUT[bi] = v, st
+                changed = True
+    n_clean = sum(1 for l_ in ev.values() for e in l_ if e[0] == 'clean')
+    if not n_clean:
+        return False, 'the buffer parameter is never emptied: a reused wNAF context keeps stale entries'
+    for bi in reach:
+        st = IN[bi]
+        for e in ev[bi]:
+            if e[0] == 'clean':
+                st = True
+            elif e[0] == 'read' and not st:
+                return False, 'the buffer parameter is used (%s at %s) before / without being emptied: a reused wNAF context keeps stale entries' % (e[2], e[1])
+        if b.blocks[bi]['term']['k'] == 'return' and not st:
+            return False, 'a return (%s) is reachable without emptying the buffer: on that path a reused wNAF context keeps the previous call\'s entries' % b.blocks[bi]['term'].get('span')
+    return True, ''
 
 
 def field_of_param(t, idx_param=1):
